@@ -637,14 +637,11 @@ def analyse(unit, gen_path, gen_text, res):
         if c is None or c.kind not in ('hint', 'wrap'):
             continue
         msgs = failed.pop(cid)
-        if '#' in cid:
-            base = cid.split('#')[0]
-            failed.setdefault(base, [])
-            failed[base] += ['(proof step %s for this clause failed)\n%s' % (cid, m) for m in msgs]
-        else:
-            # an intermediate proof step that no longer holds: Verus assumed it afterwards, so nothing proved after
-            # it can be trusted.  It is dropped and the unit is re-verified without it (run_unit).
-            bad_hints.add(cid)
+        # a proof step (plain id, or `X#h` = step towards clause X) that no longer holds: Verus assumed it afterwards,
+        # so nothing proved after it can be trusted, and its failure alone says nothing about the contract.  It is
+        # dropped and the unit is re-verified without it (run_unit): only if a CONTRACT clause then fails is a
+        # violation reported (the replay file lists the dropped steps).
+        bad_hints.add(cid)
     js = res['js']
     if js is None and not res['timeout']:
         undecided.append('verus produced no JSON (rc=%s): %s' % (res['rc'], res['stderr'][:600]))
